@@ -110,3 +110,4 @@ OPS['exceptcols'] = async (js, inm, text) => {
     const m = /^select_except\(record_a, \[([0-9,]*)\]\)$/.exec(r[1]);
     return 'ok ' + (m[1] ? m[1] : '!');
 };
+OPS['seplitjs'] = async (t) => { const r = rbql.separate_string_literals(dec_str(t)); return enc_str(r[0]) + ' ' + enc_list(r[1]); };
